@@ -298,11 +298,21 @@ Running == phase = "run"
 \* the expensive invariants are re-evaluated whenever files, memtables or read points changed (dirty), which is
 \* every state in which they could have become false
 Dirty == (l > 1 /\ l <= Len(T) + 1) /\ T[l - 1].e \in {"VersionInstall", "MemSwitch", "OpenDone", "SnapNew", "SnapRel", "Reset"}
-InvReadLatest == (Running /\ Dirty) => ReadLatest
-InvReadLatestCur == (Running /\ Dirty) => \A k \in Keys : Same(Get(k, seq), Val(k, seq))                       \* C01
-InvReadLatestSnap == (Running /\ Dirty) => \A k \in Keys : \A s \in snaps : Same(Get(k, s), Val(k, s))        \* C06
-InvLevels == Dirty => LevelsWellFormed
-InvRecency == (Running /\ Dirty) => Recency
-InvNoLiveFileMissing == (FileNums \cup UNION PinSets \cup DOMAIN built) \subseteq disk
-InvEntriesAreWrites == Dirty => EntriesAreWrites
+InvReadLatestC == (Running /\ Dirty) => ReadLatest
+InvReadLatestCurC == (Running /\ Dirty) => \A k \in Keys : Same(Get(k, seq), Val(k, seq))                       \* C01
+InvReadLatestSnapC == (Running /\ Dirty) => \A k \in Keys : \A s \in snaps : Same(Get(k, s), Val(k, s))        \* C06
+InvLevelsC == Dirty => LevelsWellFormed
+InvRecencyC == (Running /\ Dirty) => Recency
+InvNoLiveFileMissingC == (FileNums \cup UNION PinSets \cup DOMAIN built) \subseteq disk
+InvEntriesAreWritesC == Dirty => EntriesAreWrites
+
+\* a violated invariant prints the trace position, so the orchestrator need not wait for TLC to rebuild the behaviour
+ViolAt(name) == PrintT(<<"pr", name, l>>)
+InvReadLatest == InvReadLatestC \/ ~ViolAt("InvReadLatest")
+InvReadLatestCur == InvReadLatestCurC \/ ~ViolAt("InvReadLatestCur")
+InvReadLatestSnap == InvReadLatestSnapC \/ ~ViolAt("InvReadLatestSnap")
+InvLevels == InvLevelsC \/ ~ViolAt("InvLevels")
+InvRecency == InvRecencyC \/ ~ViolAt("InvRecency")
+InvNoLiveFileMissing == InvNoLiveFileMissingC \/ ~ViolAt("InvNoLiveFileMissing")
+InvEntriesAreWrites == InvEntriesAreWritesC \/ ~ViolAt("InvEntriesAreWrites")
 =============================================================================
